@@ -583,26 +583,28 @@ where
             .map(|(i, (k, _))| ((*k).into(), i))
             .collect();
 
-        // Sort indices by key
+        // Sort the keys
         let mut keys: Vec<u64> = indices.iter().map(|(k, _)| *k).collect();
         let mut sorter = RadixSort::with_config(self.config.clone());
-
-        // Create a mapping from old key to sorted position
-        let mut key_positions = vec![0usize; keys.len()];
-        for (new_pos, &(_, old_pos)) in indices.iter().enumerate() {
-            key_positions[old_pos] = new_pos;
-        }
-
         sorter.sort_u64(&mut keys)?;
+
+        // Original positions of every key, in input order, so that equal keys
+        // keep their own values (and their relative order)
+        let mut positions: std::collections::HashMap<u64, std::collections::VecDeque<usize>> =
+            std::collections::HashMap::with_capacity(indices.len());
+        for &(key, old_pos) in &indices {
+            positions.entry(key).or_default().push_back(old_pos);
+        }
 
         // Rearrange data based on sorted keys
         let original_data: Vec<(K, V)> = data.iter().cloned().collect();
 
         for (new_pos, &key) in keys.iter().enumerate() {
-            // Find original position of this key
-            // SAFETY: Every key in sorted keys array came from indices, so position() always finds it
-            let old_pos = indices.iter().position(|(k, _)| *k == key).unwrap();
-            data[new_pos] = original_data[indices[old_pos].1].clone();
+            let old_pos = positions
+                .get_mut(&key)
+                .and_then(|queue| queue.pop_front())
+                .ok_or_else(|| ZiporaError::invalid_data("sorted key not found among input keys"))?;
+            data[new_pos] = original_data[old_pos].clone();
         }
 
         Ok(())
